@@ -25,12 +25,32 @@ def build_harness(ctx, prop_dir, exe_name):
 
 
 def read_lines(path):
+    """records of a result file (id -> token tree); the END marker is kept apart under the key None:
+    its value is the announced number of records, or absent when the file is truncated"""
     d = {}
     if os.path.exists(path):
         for l in open(path):
             k, _, v = l.rstrip("\n").partition(" ")
-            d[k] = v
+            if k == "END":
+                d[None] = v.strip()
+            elif k:
+                d[k] = v
     return d
+
+
+def count_guard(ctx, prefix, summ, impl, model, compared):
+    """the comparison counts only if both files are complete and every generated case was compared"""
+    end_i, end_m = impl.pop(None, None), model.pop(None, None)
+    probs = []
+    if end_i is None or str(len(impl)) != end_i or len(impl) != summ.get("impl_lines"):
+        probs.append("impl.txt: %d records, END marker %r, harness wrote %r" % (len(impl), end_i, summ.get("impl_lines")))
+    if end_m is None or str(len(model)) != end_m or len(model) != summ.get("case_lines"):
+        probs.append("model.txt: %d records, END marker %r, harness wrote %r case records" % (len(model), end_m, summ.get("case_lines")))
+    if compared is not None and compared != len(impl):
+        probs.append("%d of %d implementation records were compared with the model" % (compared, len(impl)))
+    if probs:
+        ctx.violation(prefix + "-driver-count", "the model comparison is incomplete: " + "; ".join(probs),
+                      {"problems": probs}, found_input=False)
 
 
 def classify_diff(path):
@@ -113,7 +133,15 @@ def run(ctx):
     rc2, mlog = vlib.sh("%s %s > %s" % (drv, os.path.join(out, "cases.txt"), os.path.join(out, "model.txt")), timeout=3000)
     impl = read_lines(os.path.join(out, "impl.txt"))
     model = read_lines(os.path.join(out, "model.txt"))
+    if not ctx.replay:
+        count_guard(ctx, "c10", summ, impl, model, None)
+        ctx.min_evaluations = 1200 if ctx.tier == "quick" else 24000
+    impl.pop(None, None)
+    model.pop(None, None)
     mism, agree_ok, agree_err, items = compare(ctx, impl, model, None)
+    if not ctx.replay and mism + agree_ok + agree_err != len(impl):
+        ctx.violation("c10-driver-count", "%d of %d implementation records were compared" % (mism + agree_ok + agree_err, len(impl)),
+                      {}, found_input=False)
     if rc2 != 0:
         ctx.violation("c10-model-driver", "model driver failed: " + mlog[-500:], {"log": mlog[-2000:]}, found_input=False)
 
